@@ -306,7 +306,11 @@ impl<'a> Gen<'a> {
         let ext = self.o.extended;
         match kind {
             Kind::Cookware => {
-                let val = if self.rng.chance(1, 5) { Val::Text(rng_text(self.rng)) } else { self.num_val(ext) };
+                let text = match class {
+                    Some((t, _)) => t,
+                    None => self.rng.chance(1, 5),
+                };
+                let val = if text { Val::Text(rng_text(self.rng)) } else { self.num_val(ext) };
                 Qty { lock: false, val, unit: None, advanced: false }
             }
             Kind::Timer => {
